@@ -19,6 +19,55 @@ func listenClosure(p *Program) (*ssa.Function, *ssa.Function) {
 	if lt == nil {
 		return nil, nil
 	}
+	// role: the function handed to the port's Listen as message callback — a closure made in ListenTo itself or in a
+	// helper that returns it
+	var closureOf func(v ssa.Value, depth int) *ssa.Function
+	closureOf = func(v ssa.Value, depth int) *ssa.Function {
+		if depth > 3 {
+			return nil
+		}
+		switch x := v.(type) {
+		case *ssa.MakeClosure:
+			f, _ := x.Fn.(*ssa.Function)
+			return f
+		case *ssa.ChangeType:
+			return closureOf(x.X, depth+1)
+		case *ssa.Phi:
+			for _, e := range x.Edges {
+				if f := closureOf(e, depth+1); f != nil {
+					return f
+				}
+			}
+		case *ssa.UnOp:
+			if al, ok := x.X.(*ssa.Alloc); ok && x.Op == token.MUL {
+				for _, u := range liveRefs(al) {
+					if st, ok := u.(*ssa.Store); ok && st.Addr == ssa.Value(al) {
+						if f := closureOf(st.Val, depth+1); f != nil {
+							return f
+						}
+					}
+				}
+			}
+		case *ssa.Call:
+			if g := x.Common().StaticCallee(); g != nil && InModule(g) {
+				for _, r := range allReturns(g) {
+					for i := range r.Results {
+						if f := closureOf(retVal(r, i), depth+1); f != nil {
+							return f
+						}
+					}
+				}
+			}
+		}
+		return nil
+	}
+	for _, call := range calls(lt) {
+		if invokeIs(call, "Listen") && len(call.Common().Args) >= 1 {
+			if f := closureOf(call.Common().Args[0], 0); f != nil {
+				return lt, f
+			}
+		}
+	}
 	for _, af := range lt.AnonFuncs {
 		sig := af.Signature
 		if sig.Params().Len() == 2 && sig.Params().At(0).Type().String() == "[]byte" {
@@ -240,7 +289,7 @@ func checkC06(c *Ctx) {
 	c.Rule("C06.4", "well-formed outputs: every delivered message is non-empty, starts with a status byte and carries only data bytes; the user callback never receives an empty message", 21)
 	c.Rule("C06.5", "initial state and chunking: the constructor's state corresponds to the receiver's initial state; EachMessage adds the delta once and applies the step to each byte in order", 2)
 	liveSimulation(c, "C06.3", "C06.1", "C06.4", false)
-	retypingRule(c, "", "C06.4")
+	retypingRule(c, "C06.4", "C06.4")
 	initialAndChunking(c, "C06.5")
 }
 
@@ -256,6 +305,8 @@ func checkC04(c *Ctx) {
 	liveSimulation(c, "C04.4", "", "", true)
 	retypingRule(c, "C04.5", "")
 	loopbackRule(c, "C04.6")
+	c.Rule("C04.7", "the loopback port decodes with a decoder built from the options and callback of the current Listen (= C17.4): a reused decoder would apply an earlier listener's buffer size / sysex option to this stream", 6)
+	c.include(checkC17, map[string]string{"C17.4": "C04.7"})
 }
 
 // initialAndChunking: NewReader's state = initial receiver state; EachMessage structure.
@@ -476,10 +527,19 @@ func loopbackRule(c *Ctx, rule string) {
 				why = "the time delta is not the converted elapsed milliseconds"
 				break
 			}
-			mc, isCall := cv.X.(*ssa.Call)
-			if !isCall || mc.Common().StaticCallee() == nil || mc.Common().StaticCallee().Name() != "Milliseconds" {
+			// elapsed.Milliseconds(), or the same value written as elapsed / time.Millisecond
+			isMs := false
+			switch m := cv.X.(type) {
+			case *ssa.Call:
+				isMs = m.Common().StaticCallee() != nil && m.Common().StaticCallee().String() == "(time.Duration).Milliseconds"
+			case *ssa.BinOp:
+				if k, okk := constInt(m.Y); okk && m.Op == token.QUO && k == 1000000 && m.X.Type().String() == "time.Duration" {
+					isMs = true
+				}
+			}
+			if !isMs {
 				ok = false
-				why = "the time delta is not Duration.Milliseconds()"
+				why = "the time delta is not the elapsed duration in whole milliseconds (Duration.Milliseconds() / division by time.Millisecond)"
 			}
 		}
 	}
